@@ -80,6 +80,7 @@ func verifStdout() string
 func verifTempDir() string
 func verifJSONEquivalent(a, b string) bool
 func verifMaybeUnencodable() any
+func verifAgeFile(name string)
 func verifNameEq(a, b string) bool
 func verifNoLocksHeld() bool
 func verifCaptureStd()
